@@ -429,22 +429,21 @@ ENGINE_B = {'C15'}
 GENO = ('generator-level clauses only within GEN bounds (quick: mover = king + at most two pawns; thorough: at most one man of each non-king kind; opponent '
         'arbitrary); positions where the mover has more men of a kind are outside for generator clauses; ')
 OUTSIDE = {
-    'C01': GENO + 'per-move clauses are complete over all valid positions for the cases of the tier (quick: en passant both sides, white king moves, black castling; thorough: all cases of the prefiltered decision, selected cases of validate / apply-then-test)',
+    'C01': GENO + 'per-move clauses are complete over all valid positions for the cases of the tier (quick: the prefiltered decision for en passant with the king on the pawns\' rank, validate / apply-then-test for en passant, the castling validator; thorough: all cases of the prefiltered decision, selected cases of validate / apply-then-test); legal list = semilegal list + retain(filter) is read, not solved',
     'C02': 'SAN candidate search within GEN(2); UCI strings > 6 bytes, SAN strings > 7 bytes; two or more symbolic chain operations in sequence; MoveChain<HashRepeat> (HashMap) itself',
     'C03': 'nothing beyond the case list of the tier (thorough runs every case = all legal moves of all valid positions)',
     'C04': 'nesting deeper than 2 is covered by induction on the one-step lemma, not by unrolling',
     'C05': 'hash collisions between different positions; the cancellation argument (frame + delta) is outside the solver',
     'C06': GENO + 'validator and well-formedness clauses are complete',
-    'C07': GENO + 'classification is complete over all valid positions given the probe answer',
-    'C09': 'text rendering (Display / core::fmt) and the exact parser grammar; disambiguation minimality with three or more like pieces; SAN strings > 7 bytes',
+    'C07': 'classification is complete over all valid positions given the probe answer; has_legal_moves <=> a legal move exists is NOT decided (S6 wiring harness unsound, direct harness does not fit)',
+    'C09': 'quick: parser totality (<= 7 bytes) and refusal of Simple{Pawn}; thorough adds into_move soundness for castling values. NOT decided: text rendering (core::fmt), the exact parser grammar, into_move for the candidate-searching variants and from_move (harnesses exceed 24 GB / the caps), SAN strings > 7 bytes',
     'C10': 'UCI strings > 6 bytes (rejected by the length test inside the bound)',
     'C11': 'nothing: every raw board',
-    'C12': 'strings longer than the per-parser bound; FEN / move-list text outside the two structured families; re-formatting of SAN and FEN values',
+    'C12': 'strings longer than the per-parser bound; FEN records and UCI move lists (harnesses do not fit); re-formatting of SAN and FEN values',
     'C13': 'pre-states outside START x PREFIX; two or more symbolic operations; HashRepeat',
     'C14': 'as C13; the repetition count is universally quantified only in the precedence harness',
     'C15': 'strictly-between values for non-aligned pairs (unspecified, unused)',
     'C16': 'nothing: every valid position x square x colour',
-    'C17': 'chains longer than 9 moves, more than 6 walker operations; list text (core::fmt)',
     'C18': GENO + 'per-move clauses for the cases of the tier',
     'C19': 'the 256-move bound beyond GEN bounds; machine-code effects of undefined behaviour',
     'C20': 'iteration over sets with more than 16 members is decided by the one-step lemma + induction',
@@ -458,5 +457,5 @@ ASSUME = {
     'C01': ['legal list = semilegal list filtered by A (S6) composed with A = rules (prefiltered_legal_exact): one-line argument outside the solver'],
     'C07': ['has_legal_moves <=> exists legal move: S6 wiring + filter exactness (C01) + castling lemma'],
     'C13': ['BaseMoveChain<ArrRepeat>; transfers to HashRepeat assuming HashMap is a correct map and no Zobrist collision within a game'],
-    'C14': ['as C13'], 'C17': ['as C13'],
+    'C14': ['as C13'],
 }
